@@ -25,18 +25,28 @@ try:
     # the demo command is written for the agent's worktree: retarget it
     cmd = run_txt.replace("/tmp/seed-%s" % pid, wt).replace("\n", " ")
     m = re.search(r"`([^`]+)`", cmd)
-    if m:
+    if m and not cmd.startswith("From"):
         cmd = m.group(1)
     else:
         # strip a prose prefix ("From <dir> (...): ") and trailing remarks ("   (builds ...)", "  # ...")
+        pre = re.search(r"\(after:? `?(cp [^`)]+)`?\): ", cmd)
         if cmd.startswith("From") and "): " in cmd:
             cmd = cmd.split("): ", 1)[1]
+            if pre:
+                cmd = pre.group(1) + " && " + cmd
         elif cmd.startswith("From") and ": " in cmd:
             cmd = cmd.split(": ", 1)[1]
         starts = [cmd.find(t) for t in ("cp -r /", "cp /", "sh /", "cd /", "go test", "go run", "GOFLAGS=", "bash /") if cmd.find(t) >= 0]
         if starts:
             cmd = cmd[min(starts):]
         cmd = re.sub(r"\s{2,}[(#].*$", "", cmd).strip()
+    # a demo whose command does not copy its test files itself: put every *_test.go of demo/ into the (first) package the
+    # go test command names
+    if "cp " not in cmd and "sh " not in cmd and "bash " not in cmd:
+        m2 = re.search(r"go test .*?(\./[\w/.\-]+)", cmd)
+        tests = [f for f in os.listdir(os.path.join(src, "demo")) if f.endswith("_test.go")]
+        if m2 and tests:
+            cmd = " && ".join("cp %s %s" % (os.path.join(src, "demo", f), m2.group(1).rstrip("/") + "/") for f in tests) + " && " + cmd
     # 1. without the patch the demo passes
     rc0, out0 = sh(cmd, wt)
     res["demo_without_change"] = {"rc": rc0, "tail": out0[-300:]}
